@@ -58,7 +58,7 @@ CLAIM = {
           "c18_history_values). The pinned upstream writeBytes is kept in the model and "
           "refuted in Coq by two evaluated witnesses (finding F4: little-endian WriteBytes swaps the caller's bytes, odd length with spare "
           "capacity writes the pad byte into the caller's array). The model is compared with the real client on every run: whole backing "
-          "array after two calls, frames, results; histories with earlier results re-read and re-used as arguments.",
+          "array after two calls, frames, results; histories with earlier results re-read and re-used as arguments. At source level (Properties/C12t.v): tlsSockWrapper.Read as translated writes only buf[0:rlen] and keeps no reference; Close only closes the socket.",
   "note": "Model follows the tree with fix F4 (3f9fcea). partial: (1) the extracted model that is compared with the implementation "
           "(hp_call) leaves out the receive buffers of frames the transport skips or rejects, the RTU resynchronisation buffer (discard) "
           "and the two-level allocation of the float decoders; C18b covers them by proof as ARBITRARY left-over arrays (hj_call, "
@@ -70,7 +70,7 @@ CLAIM = {
           "implementation results on every run; caller stores between calls are proved (C18b part S) but not exercised by the harness "
           "(they are the caller's code, not the library's); (3) Go's runtime (allocator, append growth, GC) is language semantics "
           "assumed as modelled: only 'in place iff it fits' is used. Trusted: kernel, extraction, harness, scripted connection.",
-  "technique": "Coq proof (frame rule over a state+panic monad: calls store only into arrays allocated by themselves; Hoare-style "
+  "technique": "Coq proof over Go source functions translated on every run (GoLite deep embedding; sockets, clock, handler as external functions over an abstract world) + Coq proof (frame rule over a state+panic monad: calls store only into arrays allocated by themselves; Hoare-style "
                "functional specification of the request builders and of the receive path (buffer, validation, decoders, in-place "
                "swap) linking to the C01/C02 model: the heap-level call refines client_call; induction over histories, with caller "
                "stores commuting with the restriction to old arrays; vm_compute witnesses for the pinned code) + differential correspondence on slice geometries and call histories",
